@@ -75,7 +75,6 @@ CLAIMS.update({
     'C07': _e2e('Partial-reliability scenarios: a message that was not delivered must be one the sender told the peer to skip (stream entry or cumulative point of a FORWARD-TSN / I-FORWARD-TSN); everything else is delivered.'),
     'C08': _e2e('Graceful shutdown with data still queued, one-sided and crossed, under faults: Shutdown()==nil implies all earlier writes read in order before EOF; both sides closed; late writes/OpenStream rejected and never delivered.'),
     'C09': _e2e('Close / Abort / transport read failure / write failure injected right after the k-th wire event of runs that go through handshake, transfer, stream reset and shutdown, with callers parked in Connect, Accept, Read, Write, Shutdown: everything returns, no goroutine of the package survives, no write to a closed conn, Close idempotent, ABORT cause reaches the peer.'),
-    'C14': _e2e('Stream close by the writer then by the reader, re-open of the same identifier for up to 3 incarnations, several streams at once, under loss/duplication/reordering of DATA and RECONFIG: all messages then EOF per incarnation.'),
     'C18': _e2e('API-contract programs: oversize / empty / closed-stream writes, blocking writes with deadlines, short read buffers (message stays available), read deadlines expiring with no data; rejected calls are invisible in the peer read history; blocking-write gate checked white-box.'),
 })
 
@@ -334,6 +333,34 @@ if 'C03' in CLAIMS:
         'acknowledgement (C03_stale_fwdtsn_acked); C03_zero_length_abort; C03_data_ignored_outside_receive_states. On the real association: every packet under recover(), rejected packets and '
         'packets in non-receiving states leave the state line unchanged.')
     CLAIMS['C03']['note'] += RECV_NOTE
+CLAIMS.update({
+    'C14': {
+        'text': 'Proved in Lean on the L0 model Rs of outgoing stream reset between two established associations (mirrors Stream.Close / WriteSCTP / ReadSCTP / '
+                'onInboundStreamReset, OpenStream / getOrCreateStream, sendResetRequest, the end-of-stream marker in popPendingDataChunksToSend, '
+                'gatherOutboundDataAndReconfigPackets, handleData / handlePeerLastTSNAndAcknowledgement, handleReconfigParam, resetStreamsIfAny, '
+                'resetOutgoingStreamSequenceNumbers, T-reconfig expiry; two endpoints + the history of every packet each side ever sent, stream objects addressed by '
+                'handle), for EVERY operation list (application calls on any handle, write-loop passes with any admissible pending-queue selection and any '
+                'retransmissions, delivery of any old packet to the other side = loss / duplication / reordering / stale replay, timer expiry): '
+                'C14_eof_after_data (a reader that was given EOF has been handed every message its partner object wrote — ordered ones in order — and the partner was closed; '
+                'for identifiers the applications re-open only after both directions were reset), C14_marker_after_data, C14_deferred_until_cum, '
+                'C14_received_stay_readable / C14_reset_keeps_queues / C14_read_before_error (no inbound packet removes a queued message; Read serves the queue before EOF), '
+                'C14_duplicate_request_harmless (D10: a request whose number was performed is answered and changes nothing else), C14_late_response_harmless (D16: a response never '
+                'touches an open stream), C14_reopen_fresh / C14_numbering_from_zero / C14_no_mixing (a re-opened identifier starts from 0 on both sides and never receives '
+                'chunks of another incarnation), and on the exact model of rememberPerformedReset (uint32, serial compare, trimming): C14_performed_recent_remembered, '
+                'C14_performed_newest_is_max, C14_performed_only_remembered (+ C16_performed_set_shift_invariant). The model is replayed line by line against two REAL '
+                'associations driven single-threaded under testing/synctest (TestVerifReset: loss, duplication, reordering, stale replays of DATA / SACK / RECONFIG, both ends '
+                'closing at once, several streams, request before its data, lost response + T-reconfig, scripted D10 / D16, thousands of rememberPerformedReset calls as shift pairs); '
+                'the predicate P_C14 (MIX / DUP / ORDER / EOF / SEQ / REMEMBER / SHIFT) is evaluated on the implementation outputs. Plus the e2e reset scenarios (exploration).',
+        'note': NOTE_COMMON + ' Model abstractions (quantified over in the theorems, recorded from the real code by the harness): which pending entries leave the queue in one '
+                'gatherOutbound call and which sent chunks are retransmitted (congestion control, RACK, T3 are inputs), whether a SACK is due. TSN / RSN / SSN / MID are natural '
+                'numbers (no wrap: C16), messages are unfragmented, the receive buffer is never full, initial TSNs are not 0. The two-endpoint model keeps every performed RSN; '
+                'the exact bookkeeping (trim to newest-1024 above 2048 entries) is modelled and proved separately and the driver flags a run in which the two disagree. '
+                'C14_eof_after_data judges an identifier only while the applications re-open it in states where both directions were reset (Sys.quiet: in neither stream table, no object '
+                'open, no marker queued, every request naming it performed); pion offers the application no signal for that — see the observation in DESIGN §5 C14 (crossed close + early re-open loses data).',
+        'technique': 'Lean 4 proof (local send/receive invariants, cross-endpoint invariant over packet histories, incarnation bookkeeping; induction over arbitrary op lists) + '
+                     'model/implementation differential replay of two direct-driven real Associations + executable predicate on implementation outputs + e2e exploration',
+    },
+})
 
 _PENDING = 'check not built yet in this round (planned, see DESIGN.md §5/§8); not claimed until its theorems and correspondence run'
 NOT_APPLICABLE = {p: _PENDING for p in ['C%02d' % i for i in range(1, 21)] if p not in CLAIMS}
